@@ -4,6 +4,8 @@ import (
 	"fmt"
 	"strconv"
 	"strings"
+
+	"verif/harness/xrt"
 )
 
 // DeclKind classifies a declaration.
@@ -128,6 +130,7 @@ type Unit struct {
 	globals  []*VarDecl
 	decls    []*Decl
 	refs     []Ref
+	sev      []xrt.ScopeEv // declaration / reference event stream (C16, see ScopeEvents)
 	etype    map[Expr]*Type
 	// Notes lists non-fatal resolution problems (unknown identifiers, ...).
 	Notes []string
@@ -361,9 +364,21 @@ type resolver struct {
 
 func (rs *resolver) push(depth int) {
 	rs.scopes = append(rs.scopes, &scope{names: map[string]*Decl{}, depth: depth})
+	kind := "body"
+	if depth == 0 {
+		kind = "unit"
+	}
+	rs.u.sev = append(rs.u.sev, xrt.ScopeEv{Op: "open", Kind: kind})
 }
 
-func (rs *resolver) pop() { rs.scopes = rs.scopes[:len(rs.scopes)-1] }
+func (rs *resolver) pop() {
+	rs.scopes = rs.scopes[:len(rs.scopes)-1]
+	rs.u.sev = append(rs.u.sev, xrt.ScopeEv{Op: "close"})
+}
+
+// ScopeEvents is the declaration / reference event stream recorded by the
+// resolver (consumed by spec/Scopes.tla, property C16).
+func (u *Unit) ScopeEvents() []xrt.ScopeEv { return u.sev }
 
 func (rs *resolver) depth() int { return rs.scopes[len(rs.scopes)-1].depth }
 
@@ -376,6 +391,23 @@ func (rs *resolver) declare(d *Decl) {
 	d.Depth = sc.depth
 	d.idx = len(rs.u.decls)
 	rs.u.decls = append(rs.u.decls, d)
+	{
+		sig := ""
+		if d.Kind == DeclFunction && d.fn != nil {
+			sig = "("
+			for i, pd := range d.fn.Params {
+				if i > 0 {
+					sig += ","
+				}
+				sig += typeExprString(pd.Type)
+				for range pd.Dims {
+					sig += "[]"
+				}
+			}
+			sig += ")"
+		}
+		rs.u.sev = append(rs.u.sev, xrt.ScopeEv{Op: "decl", Kind: string(d.Kind), Name: d.Name, Sig: sig, Line: d.Line, Col: d.Col, Decl: d.idx})
+	}
 	if d.Name == "" {
 		return
 	}
@@ -400,6 +432,16 @@ func (rs *resolver) lookup(name string) *Decl {
 
 func (rs *resolver) ref(name string, pos Pos, d *Decl, member, builtin bool) {
 	rs.u.refs = append(rs.u.refs, Ref{Name: name, Line: pos.Line, Col: pos.Col, Decl: d, Depth: rs.depth(), Member: member, Builtin: builtin})
+	{
+		di, kind := -1, "var"
+		if d != nil {
+			di = d.idx
+		}
+		if member {
+			kind = "member"
+		}
+		rs.u.sev = append(rs.u.sev, xrt.ScopeEv{Op: "ref", Kind: kind, Name: name, Line: pos.Line, Col: pos.Col, Decl: di, Builtin: builtin, Member: member})
+	}
 }
 
 func (rs *resolver) run() error {
@@ -457,6 +499,7 @@ func (rs *resolver) run() error {
 			rs.resolveFunc(td.Func)
 		}
 	}
+	u.sev = append(u.sev, xrt.ScopeEv{Op: "close"}) // the file scope stays on the resolver's stack; the event stream closes it
 	return nil
 }
 
@@ -725,6 +768,8 @@ func (rs *resolver) resolveFunc(fd *FuncDecl) {
 	rs.push(1)
 	for _, tp := range fd.tpDecls {
 		rs.scopes[len(rs.scopes)-1].names[tp.Name] = tp
+		// the template parameters are visible in the function's scope as well (scope events)
+		rs.u.sev = append(rs.u.sev, xrt.ScopeEv{Op: "decl", Kind: string(tp.Kind), Name: tp.Name, Line: tp.Line, Col: tp.Col, Decl: tp.idx})
 	}
 	for _, pd := range fd.Params {
 		d := rs.varDecl(pd, DeclParam, fd.Name)
